@@ -17,8 +17,8 @@ from typing import Any, Dict, List, Optional
 import ih5lib
 import vlib
 
-OP_TIMEOUT = 40       # per operation / per read-back; generous because the machine is shared
-SHRINK_TIMEOUT = 6    # only while shrinking a non-terminating case; the result is re-confirmed
+OP_TIMEOUT = 30       # per operation / per read-back; generous because the machine is shared
+SHRINK_TIMEOUT = 4    # only while shrinking a non-terminating case; the result is re-confirmed
 
 # keys from the documented IH5 alphabet: printable ASCII without '@' (and '/', the separator);
 # "." alone is excluded because HDF5 itself reads it as "this group"
@@ -98,6 +98,23 @@ def canon_history(ops) -> List[Any]:
     return out
 
 
+def _paths(op):
+    return [op[1], op[2]] if op[0] in ("copy", "move") else ([op[1]] if op[0] != "bnd" else [])
+
+
+def _drop_key(op, key):
+    """op with `key` removed from its paths; None if a node path would become empty."""
+    if op[0] == "bnd":
+        return op
+    new = list(op)
+    for i in ((1, 2) if op[0] in ("copy", "move") else (1,)):
+        q = [x for x in op[i] if x != key]
+        if not q and op[0] not in ("aset", "adel"):
+            return None
+        new[i] = q
+    return new
+
+
 def w_shrink(hit):
     """Shrink one failing history (worker): cut after the failing step, ddmin over the
     operations keeping the failure class, then simplify values."""
@@ -110,7 +127,19 @@ def w_shrink(hit):
         return d is not None and d["cls"] == cls
     if not fails(ops):
         return None            # not reproducible alone (e.g. a timeout caused by machine load)
-    small = vlib.ddmin(ops, fails, budget=70)
+    small = vlib.ddmin(ops, fails, budget=24 if cls == "timeout" else 70)
+    # shorten paths: drop a key from every path / attribute-holder path where the failure survives
+    changed = True
+    while changed:
+        changed = False
+        for key in sorted({x for o in small for pth in _paths(o) for x in pth}):
+            cand = [_drop_key(o, key) for o in small]
+            if None in cand or cand == small:
+                continue
+            if fails(cand):
+                small, changed = cand, True
+                break
+    small = vlib.ddmin(small, fails, budget=20)
     # simplify values: all equal where the failure survives
     cand = [([o[0], o[1], "i:1"] if o[0] == "set" else ([o[0], o[1], o[2], "i:1"] if o[0] == "aset" else o)) for o in small]
     if cand != small and fails(cand):
@@ -281,9 +310,10 @@ def run(ctx: vlib.Ctx):
     groups: Dict[str, List[Dict[str, Any]]] = {}
     for h in sorted(oracle_hits, key=lambda h: (h["step"], len(h["ops"]))):
         groups.setdefault(f"{h['cls']}/{h['ops'][h['step']][0]}", []).append(h)
-    picked = [h for g in sorted(groups) for h in groups[g][:3]][:36]
+    picked = [h for g in sorted(groups) for h in groups[g][:(1 if g.startswith("timeout") else 3)]][:36]
     shrunk = vlib.pmap(w_shrink, picked, chunksize=1) if picked else []
     seen = set()
+    per_class: Dict[str, int] = {}
     unconfirmed = 0
     for h, r in sorted(zip(picked, shrunk), key=lambda hr: len(hr[1]["ops"]) if hr[1] else 10**6):
         if r is None:
@@ -295,10 +325,12 @@ def run(ctx: vlib.Ctx):
         if key in seen:
             continue
         seen.add(key)
-        if len(seen) > 8:
-            break
+        per_class[d["cls"]] = per_class.get(d["cls"], 0) + 1
+        if per_class[d["cls"]] > 3 or sum(min(v, 3) for v in per_class.values()) > 12:
+            continue          # at most three distinct minimal histories per failure class
         ctx.violation(f"IH5 differs from a plain HDF5 tree at step {d['step']} of {small}: {d['what']}",
                       {"kind": "history", "ops": small, "diff": d, "canonical": sig}, sig_obj=sig)
+    cov["distinct_minimal_failures_by_class"] = per_class
     if unconfirmed:
         ctx.notes.append(f"{unconfirmed} oracle hit(s) did not reproduce when re-run alone (time-outs under load); not reported")
     if oracle_hits and not seen and unconfirmed < len(picked):
